@@ -92,20 +92,41 @@ func TestVerifC14(t *testing.T) {
 			t.Fatal(err)
 		}
 		rmd, _ := r.GetOwnMemberDeviceForGroup(g)
-		gpk, _ := g.GetPubKey()
+		_ = g
 		nSenders := 1 + rng.Intn(2)
 		var senders []*vSender
 		var pushes [][][]byte
+		// every fourth session on account / contact groups: ONE sender device (another device of the
+		// receiver's account) on SEVERAL groups of that account - the account group and contact groups,
+		// where the device key is the same everywhere; each (device, group) stream is one "sender" of the model
+		sameDevice := it%4 == 3 && kind != 0
+		var sameStore *secretStore
+		if sameDevice {
+			nSenders = 2 + rng.Intn(2)
+			sameStore = mk()
+		}
 		for d := 0; d < nSenders; d++ {
-			s := vNewSender(t, ctx, g, rmd.Member(), nMsg, uint64(d+1)*100000)
+			var s *vSender
+			if sameDevice {
+				gd := vGroup(t, 1+(d+kind)%2, r) // account group / a contact group, alternating
+				if d >= 2 {
+					gd = vGroup(t, 2, r)
+				}
+				if err := r.PutGroup(ctx, gd); err != nil {
+					t.Fatal(err)
+				}
+				s = vSenderWith(t, ctx, sameStore, gd, rmd.Member(), nMsg, uint64(d+1)*100000)
+			} else {
+				s = vNewSender(t, ctx, g, rmd.Member(), nMsg, uint64(d+1)*100000)
+			}
 			senders = append(senders, s)
 			ps := [][]byte{nil}
 			for k := 1; k <= nMsg; k++ {
-				env, hdr, err := s.store.OpenEnvelopeHeaders(s.env[k], g)
+				env, hdr, err := s.store.OpenEnvelopeHeaders(s.env[k], s.g)
 				if err != nil {
 					t.Fatal(err)
 				}
-				oe, err := s.store.SealOutOfStoreMessageEnvelope(s.cids[k], env, hdr, g)
+				oe, err := s.store.SealOutOfStoreMessageEnvelope(s.cids[k], env, hdr, s.g)
 				if err != nil {
 					t.Fatal(err)
 				}
@@ -140,7 +161,7 @@ func TestVerifC14(t *testing.T) {
 			switch x := rng.Intn(12); {
 			case x < 2:
 				c := rng.Intn(3)
-				err := r.RegisterChainKey(ctx, g, s.dev, s.ann[c])
+				err := r.RegisterChainKey(ctx, s.g, s.dev, s.ann[c])
 				ops = append(ops, fmt.Sprintf("PReg %d %d", d+1, c))
 				obs = append(obs, "PDone")
 				if err != nil {
@@ -151,11 +172,12 @@ func TestVerifC14(t *testing.T) {
 				}
 			case x < 6:
 				ops = append(ops, fmt.Sprintf("PLog %d %d %d", d+1, k, cidNum))
-				env, hdr, err := r.OpenEnvelopeHeaders(s.env[k], g)
+				env, hdr, err := r.OpenEnvelopeHeaders(s.env[k], s.g)
 				if err != nil {
 					t.Fatal(err)
 				}
-				msg, err := r.OpenEnvelopePayload(ctx, env, hdr, gpk, rmd.Device(), s.cids[k])
+				sgpk, _ := s.g.GetPubKey()
+				msg, err := r.OpenEnvelopePayload(ctx, env, hdr, sgpk, rmd.Device(), s.cids[k])
 				want := sh[d].reg && (sh[d].logged[k] || (k > sh[d].c && k <= sh[d].c+W+len(sh[d].logged)))
 				if err != nil {
 					obs = append(obs, "PFail")
@@ -164,7 +186,7 @@ func TestVerifC14(t *testing.T) {
 					}
 				} else {
 					// MessageStore moves the reference window after a log delivery
-					_ = r.UpdateOutOfStoreGroupReferences(ctx, s.devRaw, hdr.Counter, g)
+					_ = r.UpdateOutOfStoreGroupReferences(ctx, s.devRaw, hdr.Counter, s.g)
 					b, _ := proto.Marshal(msg)
 					if !bytes.Equal(b, s.pay[k]) {
 						fail("wrong payload", "log delivery returned a different payload")
@@ -186,7 +208,7 @@ func TestVerifC14(t *testing.T) {
 				} else {
 					sh[d].center = k
 					obs = append(obs, fmt.Sprintf("POk %d %s", cidNum, vharness.Bool(already)))
-					if !bytes.Equal(clear, s.pay[k]) || oosMsg.Counter != uint64(k) || !bytes.Equal(oosMsg.DevicePk, s.devRaw) || !bytes.Equal(grp.PublicKey, g.PublicKey) {
+					if !bytes.Equal(clear, s.pay[k]) || oosMsg.Counter != uint64(k) || !bytes.Equal(oosMsg.DevicePk, s.devRaw) || !bytes.Equal(grp.PublicKey, s.g.PublicKey) {
 						fail("push payload opened to the wrong message", fmt.Sprintf("push of message %d of sender %d: payload/sender/counter/group differ from the original", k, d+1))
 					}
 					if already != sh[d].logged[k] {
@@ -210,7 +232,7 @@ func TestVerifC14(t *testing.T) {
 				// unknown group reference: a push payload of another group
 				ops = append(ops, fmt.Sprintf("PPushBad %d %d %d", d+1, k, cidNum))
 				g2, _, _ := protocoltypes.NewGroupMultiMember()
-				env, hdr, _ := s.store.OpenEnvelopeHeaders(s.env[k], g)
+				env, hdr, _ := s.store.OpenEnvelopeHeaders(s.env[k], s.g)
 				oe, _ := s.store.SealOutOfStoreMessageEnvelope(s.cids[k], env, hdr, g2)
 				b, _ := proto.Marshal(oe)
 				if _, _, _, _, err := r.OpenOutOfStoreMessage(ctx, b); err == nil {
@@ -222,7 +244,11 @@ func TestVerifC14(t *testing.T) {
 			}
 		}
 		coq := fmt.Sprintf("CPush %d %d %s %s", W, nr, vharness.List(ops), vharness.List(obs))
-		out.Emit(vharness.Case{Kind: "session", Coq: coq, Key: coq, Nontrivial: true, OracleOK: ok, Note: note, Sig: sig})
+		sk := "session"
+		if sameDevice {
+			sk = "session-one-device-several-groups"
+		}
+		out.Emit(vharness.Case{Kind: sk, Coq: coq, Key: coq, Nontrivial: true, OracleOK: ok, Note: note, Sig: sig})
 	}
 	t.Logf("C14 harness: %d cases", out.N)
 }
